@@ -34,10 +34,10 @@ type c18Spec struct {
 	Chain string `json:"chain"`
 	Mode  string `json:"mode"` // event | bridgecall | proposal | ibc
 	// bridgecall
-	Target  string `json:"target"`  // revert-late | loop | invalid | token-disabled | ok
-	Refund  string `json:"refund"`  // to | other
-	NTokens int    `json:"ntokens"` // tokens carried by the call
-	FailAt  int    `json:"fail_at"` // index of the unconvertible token (token-disabled)
+	Target  string `json:"target"`         // revert-late | loop | invalid | token-disabled | ok
+	Refund  string `json:"refund"`         // to | other
+	NTokens int    `json:"ntokens"`        // tokens carried by the call
+	FailAt  int    `json:"fail_at"`        // index of the unconvertible token (token-disabled)
 	Memo    bool   `json:"memo,omitempty"` // the claim carries the "send, then call `to`" memo: the tokens go to the sender's account
 	// proposal
 	Kind string `json:"kind"` // error | evm-revert | evm-oog
